@@ -140,6 +140,7 @@ type Program struct {
 	CtxFlavor           int           // how the lane's context is made: CtxPlain, CtxCause, CtxChild
 	EarlyWaiter         bool          // a goroutine calls Wait() straight after New(): it must not return while the context is live
 	Abrupt              bool          // New, a few pushes, cancel, Wait - back to back on one goroutine, without letting the lane settle; Ops are ignored
+	BornDone            bool          // the lane is created on a context that is already done
 	Ops                 []Op
 }
 
@@ -712,6 +713,12 @@ func Run(p Program) (res Result) {
 	hk := s.hook
 	tasklane.VerifHook.Store(&hk)
 	defer tasklane.VerifHook.Store(nil)
+	if p.BornDone {
+		s.cancel()
+		s.cancelled.Store(true)
+		s.res.Cancelled = true
+		s.res.CancelPoint = "before New"
+	}
 	s.tl = tasklane.New(s.ctx, p.LaneSize, p.QueueSize)
 	if p.EarlyWaiter {
 		// Wait() may be called at any time, also before the lane's goroutines have been scheduled for the first time
